@@ -14,7 +14,7 @@ from decimal import Decimal
 from openpyxl.utils import get_column_letter
 
 from .parser import parse, ParseError, refs as ast_refs
-from .values import BLANK, Err, XlError, ANY, is_num
+from .values import BLANK, Err, XlError, ANY, is_num, ERROR_TEXTS
 from ..wbspec import dec, rc
 
 
@@ -335,10 +335,11 @@ class Evaluator:
         nums = []
         for a in args:
             v = self.ev(a, sheet, at)
-            if isinstance(v, Area) or a[0] == 'ref':
-                vals = v.flat() if isinstance(v, Area) else [v]
+            if isinstance(v, (Area, list)) or a[0] == 'ref':
+                # a list is a row/column handed on by INDEX(area,0,c) / INDEX(area,r,0): its items are area cells
+                vals = v.flat() if isinstance(v, Area) else v if isinstance(v, list) else [v]
                 for x in vals:
-                    if isinstance(x, Err):
+                    if isinstance(x, Err) or (isinstance(x, str) and x in ERROR_TEXTS):
                         raise NoOpinion('error value inside an aggregated area')
                     if is_num(x):
                         nums.append(x)
@@ -398,6 +399,11 @@ def _iferror(ev, a, sh, at):
         v = ev.ev(a[0], sh, at)
         if isinstance(v, str) and v.startswith('#') and v in ('#NUM!', '#DIV/0!', '#N/A', '#NAME?', '#NULL!', '#REF!', '#VALUE!'):
             raise XlError(v)
+        if isinstance(v, (Area, list)):
+            items = v.flat() if isinstance(v, Area) else v
+            if any(isinstance(x, Err) or (isinstance(x, str) and x in ERROR_TEXTS) for x in items):
+                # element-wise (dynamic arrays) or whole-value fallback: the statement speaks of one value
+                raise NoOpinion('IFERROR over an area that holds an error value')
         return v
     except XlError:
         return ev.ev(a[1], sh, at)
